@@ -181,24 +181,26 @@ theorem C12_objective_sum {α : Type} [Add α] [Mul α] [One α] [Zero α] (K : 
 
 /-- Computing all mode gradients at once equals computing them one mode at a time: the `k`-th
 matrix `evaluate` returns is the mode-`k` MTTKRP (by its defining sum) of the weighted
-derivative tensor with the factor matrices.  (That `tensor.mttkrps` itself agrees with the
+derivative tensor with the model — the factor matrices give the products and every column
+carries the model weight of its component.  (That `tensor.mttkrps` itself agrees with the
 per-mode `tensor.mttkrp` on the real code is checked by the harness on every run.) -/
 theorem C12_all_modes_eq_each {α : Type} [Add α] [Mul α] [One α] [Zero α] (K : Ktensor α) (X : Dense α)
     (W : Option (Dense α)) (f : Option (Handle α)) (g : Handle α)
     (hN : 2 ≤ K.factors.length) (hX : X.shape = K.shape) (hXwf : X.WF)
     (hW : ∀ W', W = some W' → W'.shape = K.shape ∧ W'.WF) (k : Nat) (hk : k < K.factors.length) :
     ∃ F G, evaluate K X W f (some g) = .ok ⟨F, some G⟩ ∧ G.length = K.factors.length ∧
-      G[k]? = some (mttkrpDef ⟨K.shape, wY K X W g⟩ K.factors K.ncomp k) := by
+      G[k]? = some (scaleCols (mttkrpDef ⟨K.shape, wY K X W g⟩ K.factors K.ncomp k) K.weights) := by
   refine ⟨_, _, evaluate_ok K X W f (some g) (Or.inr rfl) hN hX hXwf hW, ?_, ?_⟩
-  · simp [mttkrpsDef, length_shape]
-  · simp [mttkrpsDef, length_shape, hk]
+  · simp [mttkrpsK, mttkrpsDef, length_shape]
+  · simp [mttkrpsK, mttkrpsDef, length_shape, hk]
 
 /-- **The gradients are the exact partial derivatives of the objective.**  For every mode `k`,
-row `a` and component `r`: the objective, as a function of the single factor entry
-`A_k[a, r]`, has derivative `λ_r · G_k[a, r]` there, `G` the gradient list `evaluate` returns —
-for any handle pair that is a (loss, derivative) pair at the model values that occur.
-`evaluate` hands only the factor matrices to `mttkrps`, hence the factor `λ_r`; it is `1` for
-the models `gcp_opt` works with (see `C12_gradient_is_partial_derivative_unit_weights`). -/
+row `a` and component `r`, and for a model with *arbitrary* weights `λ` (non-unit, negative,
+zero): the objective, as a function of the single factor entry `A_k[a, r]`, has derivative
+`G_k[a, r]` there, `G` the gradient list `evaluate` returns — for any handle pair that is a
+(loss, derivative) pair at the model values that occur.  (Holds since /repo 05825c3, where
+`evaluate` hands the model itself to `mttkrps`; before, the entry was off by the factor
+`λ_r`.) -/
 theorem C12_gradient_is_partial_derivative (K : Ktensor ℝ) (X : Dense ℝ) (W : Option (Dense ℝ)) (f g : Handle ℝ)
     (k a r : Nat) (hN : 2 ≤ K.factors.length) (hWF : K.WF) (hX : X.shape = K.shape) (hXwf : X.WF)
     (hW : ∀ W', W = some W' → W'.shape = K.shape ∧ W'.WF)
@@ -206,48 +208,43 @@ theorem C12_gradient_is_partial_derivative (K : Ktensor ℝ) (X : Dense ℝ) (W 
     (hfg : ∀ i ∈ allSubs K.shape, HasDerivAt (f (X.get i)) (g (X.get i) (K.get i)) (K.get i)) :
     ∃ G, evaluate K X W (some f) (some g) = .ok ⟨some (gcpObjective K X W f), some G⟩ ∧
       HasDerivAt (fun t => gcpObjective (K.setEntry k a r t) X W f)
-        (K.weights.getD r 0 * (G.getD k []).get a r) ((K.factors.getD k []).get a r) := by
+        ((G.getD k []).get a r) ((K.factors.getD k []).get a r) := by
   refine ⟨_, evaluate_ok K X W (some f) (some g) (Or.inl rfl) hN hX hXwf hW, ?_⟩
   have h := gradient_is_partial K X W f g k a r hWF hk ha hr hfg
-  have e : (mttkrpsDef ⟨K.shape, wY K X W g⟩ K.factors K.ncomp).getD k []
-      = mttkrpDef ⟨K.shape, wY K X W g⟩ K.factors K.ncomp k := by
-    simp [mttkrpsDef, length_shape, hk]
-  rw [e]
+  have e : (mttkrpsK ⟨K.shape, wY K X W g⟩ K).getD k []
+      = scaleCols (mttkrpDef ⟨K.shape, wY K X W g⟩ K.factors K.ncomp k) K.weights := by
+    simp [mttkrpsK, mttkrpsDef, length_shape, hk]
+  rw [e, scaleCols_get, mul_comm]
   exact h
-
-/-- With unit model weights (the normal form `gcp_opt` keeps its model in) the returned
-gradient entry is exactly the partial derivative. -/
-theorem C12_gradient_is_partial_derivative_unit_weights (K : Ktensor ℝ) (X : Dense ℝ) (W : Option (Dense ℝ))
-    (f g : Handle ℝ) (k a r : Nat) (hN : 2 ≤ K.factors.length) (hWF : K.WF) (hX : X.shape = K.shape)
-    (hXwf : X.WF) (hW : ∀ W', W = some W' → W'.shape = K.shape ∧ W'.WF)
-    (hk : k < K.factors.length) (ha : a < (K.factors.getD k []).length) (hr : r < K.ncomp)
-    (hunit : ∀ r < K.ncomp, K.weights.getD r 0 = 1)
-    (hfg : ∀ i ∈ allSubs K.shape, HasDerivAt (f (X.get i)) (g (X.get i) (K.get i)) (K.get i)) :
-    ∃ G, evaluate K X W (some f) (some g) = .ok ⟨some (gcpObjective K X W f), some G⟩ ∧
-      HasDerivAt (fun t => gcpObjective (K.setEntry k a r t) X W f)
-        ((G.getD k []).get a r) ((K.factors.getD k []).get a r) := by
-  obtain ⟨G, h1, h2⟩ := C12_gradient_is_partial_derivative K X W f g k a r hN hWF hX hXwf hW hk ha hr hfg
-  refine ⟨G, h1, ?_⟩
-  rwa [hunit r hr, one_mul] at h2
 
 /-- Parts A and B together: for every built-in objective, with the handles `fg_setup.setup`
 returns (as generated from the current source), admissible parameter, and all model values
 inside the returned lower bound, the gradient matrices of `evaluate` are the partial
-derivatives of the objective. -/
+derivatives of the objective (any model weights). -/
 theorem C12_gradient_is_partial_derivative_builtin (o : Objective) (p : ℝ) (K : Ktensor ℝ) (X : Dense ℝ)
     (W : Option (Dense ℝ)) (k a r : Nat) (hp : ParamOK o p)
     (hN : 2 ≤ K.factors.length) (hWF : K.WF) (hX : X.shape = K.shape) (hXwf : X.WF)
     (hW : ∀ W', W = some W' → W'.shape = K.shape ∧ W'.WF)
     (hk : k < K.factors.length) (ha : a < (K.factors.getD k []).length) (hr : r < K.ncomp)
-    (hunit : ∀ r < K.ncomp, K.weights.getD r 0 = 1)
     (hdom : ∀ i ∈ allSubs K.shape, (setupTable o).lower.holds (K.get i)) :
     ∃ G, evaluate K X W (some fun x m => (setupTable o).fn.evalR x p m)
           (some fun x m => (setupTable o).grad.evalR x p m)
         = .ok ⟨some (gcpObjective K X W fun x m => (setupTable o).fn.evalR x p m), some G⟩ ∧
       HasDerivAt (fun t => gcpObjective (K.setEntry k a r t) X W fun x m => (setupTable o).fn.evalR x p m)
         ((G.getD k []).get a r) ((K.factors.getD k []).get a r) :=
-  C12_gradient_is_partial_derivative_unit_weights K X W _ _ k a r hN hWF hX hXwf hW hk ha hr hunit
+  C12_gradient_is_partial_derivative K X W _ _ k a r hN hWF hX hXwf hW hk ha hr
     (fun i hi => C12_deriv_table o (X.get i) p (K.get i) hp (hdom i hi))
+
+/-- The code before /repo 05825c3 handed only the factor matrices to `mttkrps`: for the
+two-mode, one-component model `λ = 2`, `A₀ = A₁ = [[1]]`, data `0` and the Gaussian pair
+the old gradient entry was `4`, the partial derivative of `(2·t·1 - 0)²` at `t = 1` is `8`
+(which is what the repaired `evaluate` returns). -/
+theorem C12_evaluate_weights_pinned_counterexample :
+    (mttkrpsDef (α := Int) ⟨[1, 1], [2 * (2 - 0)]⟩ [[[1]], [[1]]] 1).getD 0 [] = [[4]] ∧
+    evaluate (α := Int) ⟨[2], [[[1]], [[1]]]⟩ ⟨[1, 1], [0]⟩ none
+      (some fun x m => (m - x) * (m - x)) (some fun x m => 2 * (m - x))
+      = .ok ⟨some 4, some [[[8]], [[8]]]⟩ := by
+  constructor <;> rfl
 
 /-- What `evaluate` refuses: no handle at all, a model with fewer than two modes, data of
 another shape. -/
@@ -310,6 +307,10 @@ weights, well-formed data) -/
 example : evaluate (α := Int) ⟨[1, 1], [[[1, 2], [3, 4]], [[5, 6], [7, 8]]]⟩ ⟨[2, 2], [1, 2, 3, 4]⟩ none
     (some fun x m => (m - x) * (m - x)) (some fun x m => 2 * (m - x))
     = .ok ⟨some 4426, some [[[440, 512], [1056, 1228]], [[254, 360], [334, 472]]]⟩ := by rfl
+
+example : evaluate (α := Int) ⟨[2, -1], [[[1, 2], [3, 4]], [[5, 6], [7, 8]]]⟩ ⟨[2, 2], [1, 2, 3, 4]⟩ none
+    none (some fun x m => 2 * (m - x))
+    = .ok ⟨none, some [[[-200, 116], [248, -144]], [[36, -20], [52, -28]]]⟩ := by rfl
 
 example : estimate (α := Int) ⟨[1, 1], [[[1, 2], [3, 4]], [[5, 6], [7, 8]]]⟩ (allSubs [2, 2]) [1, 2, 3, 4]
     [1, 1, 1, 1] (some fun x m => (m - x) * (m - x)) (some fun x m => 2 * (m - x)) none
